@@ -26,7 +26,7 @@ type Item struct {
 type TLV []Item
 
 func (t *TLV) Add(tag byte, val []byte) { *t = append(*t, Item{tag, val}) }
-func (t *TLV) AddByte(tag byte, b byte)  { t.Add(tag, []byte{b}) }
+func (t *TLV) AddByte(tag byte, b byte) { t.Add(tag, []byte{b}) }
 
 // Encode fragments values longer than 255 bytes.
 func (t TLV) Encode() []byte {
